@@ -61,8 +61,12 @@ def digest(text: str) -> str:
 
 
 def exc_text(err) -> str:
-    text = type(err).__name__ + " " + str(err)[:60]
-    return "".join(ch if ch.isalnum() or ch in " _-.,()" else "_" for ch in text).strip()
+    """ exception type name (the part of a refusal the trace spec puts into clause names) """
+    return type(err).__name__
+
+
+def exc_message(err) -> str:
+    return (type(err).__name__ + ": " + str(err))[:200]
 
 
 def setup_process():
@@ -219,6 +223,8 @@ class Rules:
         record = plain_record(scene["L"], scene["circ"], c["rec"])
         for idx, loc in enumerate(scene["locs"]):
             record.add_cds_feature(DummyCDS(location=build.loc(loc), locus_tag=R.gene_name(idx)))
+        if case.get("subregion"):   # an existing subregion: genes with hits outside every protocluster are reported, too
+            record.add_subregion(SubRegion(FeatureLocation(0, scene["L"], 1), tool="verif", label="whole record"))
         return record
 
     @staticmethod
@@ -543,7 +549,7 @@ def replay(kind: str, case: dict, env: dict, hist: list, workdir: str, keep_text
     saved_text = None
     saved_schema = 0
     steps = []
-    blank = {"o": "", "exc": "", "js": "", "ef": "", "fj": "", "fe": "", "hits": [], "kept": [], "lab": {"a": 0, "b": 1}}
+    blank = {"o": "", "exc": "", "msg": "", "js": "", "ef": "", "fj": "", "fe": "", "hits": [], "kept": [], "lab": {"a": 0, "b": 1}}
     for entry in hist:
         action, c = entry["a"], entry["c"]
         step = dict(blank, a=action, c=c)
@@ -559,18 +565,25 @@ def replay(kind: str, case: dict, env: dict, hist: list, workdir: str, keep_text
                 with _Patched(driver.patches(case, env, c, workdir)):
                     held = driver.run(case, env, c, record, options, workdir)
             except Exception as err:  # pylint: disable=broad-except
-                step["exc"] = "run:" + exc_text(err)      # the module's own run path failed: not a statement about reuse
+                step.update(exc="run:" + exc_text(err), msg=exc_message(err))   # the module's own run path failed: not about reuse
                 held = None
             else:
                 try:
-                    text, feats = observe_results(driver, held, record)
-                    step.update(js=digest(text), ef=digest(repr(feats)), summary=summary(feats), size=len(text))
-                    if keep_texts:
-                        step["text"] = text
-                    held_schema = c["schema"]
+                    driver.effects(held, record)
+                    feats = project_record(record)
                 except Exception as err:  # pylint: disable=broad-except
-                    step["exc"] = exc_text(err)
+                    step.update(exc="run:" + exc_text(err), msg=exc_message(err))     # still the module's own run path
                     held = None
+                else:
+                    try:
+                        text = dumps(held)
+                        step.update(js=digest(text), ef=digest(repr(feats)), summary=summary(feats), size=len(text))
+                        if keep_texts:
+                            step["text"] = text
+                        held_schema = c["schema"]
+                    except Exception as err:  # pylint: disable=broad-except
+                        step.update(exc=exc_text(err), msg=exc_message(err))          # results that cannot be saved
+                        held = None
             saved_text = None
         elif action == "Save":
             if held is None:
@@ -580,7 +593,7 @@ def replay(kind: str, case: dict, env: dict, hist: list, workdir: str, keep_text
                 step["js"] = digest(saved_text)
                 saved_schema = held_schema
             except Exception as err:  # pylint: disable=broad-except
-                step["exc"] = exc_text(err)
+                step.update(exc=exc_text(err), msg=exc_message(err))
                 saved_text = None
             if saved_text is not None:
                 held = None
@@ -609,8 +622,7 @@ def replay(kind: str, case: dict, env: dict, hist: list, workdir: str, keep_text
                         else:
                             step["o"] = "discarded"     # the module chose to run again
                 except Exception as err:  # pylint: disable=broad-except
-                    step["o"] = "refused"
-                    step["exc"] = exc_text(err)
+                    step.update(o="refused", exc=exc_text(err), msg=exc_message(err))
                 if held is not None:
                     try:
                         text, feats = observe_results(driver, held, record)
@@ -618,7 +630,7 @@ def replay(kind: str, case: dict, env: dict, hist: list, workdir: str, keep_text
                         if keep_texts:
                             step["text"] = text
                     except Exception as err:  # pylint: disable=broad-except
-                        step.update(o="refused", exc="after regeneration " + exc_text(err))
+                        step.update(o="refused", exc=exc_text(err), msg="while adding the regenerated results to the record: " + exc_message(err))
                         held = None
                 if kind in ("tta", "hmmer"):
                     try:
